@@ -20,7 +20,7 @@ def rand_node(rng, depth, ids, refuse_ok):
     mws = []
     for _ in range(rng.range(0, 3 if refuse_ok else 1)):
         ids[0] += 1
-        mws.append([ids[0], 0 if (refuse_ok and rng.chance(1, 3)) else 1])
+        mws.append([ids[0], (rng.choice([0, 2, 2]) if (refuse_ok and rng.chance(1, 2)) else 1)])
     redirs = [[rng.choice(REDIRPATS), rng.choice(TEMPLATES)] for _ in range(rng.range(0, 3) if rng.chance(2, 3) else 0)]
     subs = []
     if depth > 0:
@@ -87,9 +87,19 @@ def build(tier, seed, ctx, refuse_ok, n):
         frontier = nxt
     for (tree, raw, path), tab in zip(cases, tables):
         rxtab = [[pat, p, r[0], r[1], r[2]] for (pat, p), r in sorted(tab.items())]
-        head = b"GET " + raw + b" HTTP/1.1\r\nHost: h\r\n\r\n"
+        passes = 1 if rng.chance(1, 2) else 0
+        head = b"GET " + raw + b" HTTP/1.1\r\nHost: h\r\n" + (b"X-Pass: 1\r\n" if passes else b"") + b"\r\n"
         ops = [G.Construct, G.Feed(head), G.Turn]
-        yield ("srv", [tree, ops, G.env_for(ver, utab, [raw]) + [rxtab], [5, path]], "refusing" if refuse_ok else "routing")
+        yield ("srv", [tree, ops, G.env_for(ver, utab, [raw]) + [rxtab], [5, path, passes]], "refusing" if refuse_ok else "routing")
+        # the same tree serving several connections: the same path again with the other verdict, and other paths
+        if refuse_ok and rng.chance(1, 2):
+            conns = []
+            metas = []
+            for ps in rng.choice([[1, 0], [0, 1, 0], [1, 1, 0, 1], [0, 0]]):
+                h2 = b"GET " + raw + b" HTTP/1.1\r\n" + (b"X-Pass: 1\r\n" if ps else b"") + b"\r\n"
+                conns.append([G.Construct, G.Feed(h2), G.Turn])
+                metas.append([path, ps])
+            yield ("srvm", [tree, conns, G.env_for(ver, utab, [raw]) + [rxtab], [6, metas]], "multi-connection")
 
 
 def cases(tier, seed, ctx=None):
